@@ -23,6 +23,8 @@ import SJ.Drv.StreamTyped
 import SJ.Drv.LineCol
 import SJ.Drv.C19b
 import SJ.Drv.Readers
+import SJ.Drv.C19Seq
+import SJ.Drv.C10Raw
 /-!
 `sjdriver` — reads case lines `op args… => impl-observation` on stdin, runs the Lean model and the
 executable specification on each, prints
@@ -59,6 +61,8 @@ def allHandlers : List (String × Handler) :=
     LineCol.handlers,
     C19b.handlers,
     Readers.handlers,
+    C19Seq.handlers,
+    C10Raw.handlers,
   ]
 
 def findHandler (op : String) : Option Handler := (allHandlers.find? (·.1 == op)).map (·.2)
